@@ -96,6 +96,33 @@ class _SimRunner(_OrigRunner):
 
 cl_mod._ControlLoopRunner = _SimRunner
 
+# observation only: log hard aborts of a run's control-loop task (idle release, handler.cancel())
+from workflows.plugins import basic as _basic_mod  # noqa: E402
+
+_orig_abort = _basic_mod.ExternalAsyncioAdapter.abort
+
+
+def _logged_abort(self) -> None:
+    w = _CURRENT_WORLD[0]
+    if w is not None:
+        w.trace.log("abort", run=self.run_id, live=not self._queues.complete.done())
+    return _orig_abort(self)
+
+
+_basic_mod.ExternalAsyncioAdapter.abort = _logged_abort
+
+_orig_ext_send = _basic_mod.ExternalAsyncioAdapter.send_event
+
+
+async def _logged_ext_send(self, tick) -> None:
+    w = _CURRENT_WORLD[0]
+    if w is not None and w.cfg.get("log_mailbox"):
+        w.trace.log("mailbox-put", run=self.run_id, **tick_desc(tick))
+    return await _orig_ext_send(self, tick)
+
+
+_basic_mod.ExternalAsyncioAdapter.send_event = _logged_ext_send
+
 # ---------------------------------------------------------------------------
 # recording runtime / adapters
 
@@ -567,6 +594,7 @@ class EngineWorld:
                        lastmsg=str(ri.last_exception) if ri.last_exception else None,
                        elapsed=ri.elapsed_seconds, run=self._run_id_of(ctx),
                        runner=runners[-1]._sim_runner_no if runners else None)
+        rec["runner"] = runners[-1]._sim_runner_no if runners else None
         self.open_bodies[rec["inv"]] = rec
         if isinstance(ev, StepFailedEvent):
             self.trace.log("step-failed-event", handler=s["name"], step=ev.step_name, attempts=ev.attempts,
